@@ -5,12 +5,15 @@ package c17
 import (
 	"bytes"
 	"crypto"
+	stdecdsa "crypto/ecdsa"
+	stded "crypto/ed25519"
 	"crypto/elliptic"
 	"crypto/rand"
 	"crypto/rsa"
 	"encoding/json"
 	"fmt"
 	"os"
+	"os/exec"
 	"path/filepath"
 	"runtime"
 	"sync"
@@ -52,7 +55,8 @@ var kinds = map[string][]string{
 	"ecdsa-keys":       {"Sign", "SignASN1", "Verify", "VerifyASN1", "BlindPublicKey", "UnblindPublicKey", "BlindKeySign", "Public"},
 	"ed25519-keys":     {"Sign", "Verify", "BlindPublicKey", "UnblindPublicKey", "BlindKeySign", "Public"},
 	"ecdsa-generate":   {"GenerateKey", "Sign"},
-	"type3-attester-ro": {"FinalizeIndexUnknownClient"}, // read-only use of an attester (rejections only)
+	"ed25519-firstuse": {"Sign", "Verify", "NewKeyFromSeed", "BlindKeySign"},
+	"ecdsa-firstuse":   {"Sign", "Verify", "GenerateKey"},
 }
 
 func kindNames() []string {
@@ -538,6 +542,114 @@ func execute(p Plan) error {
 					}
 				}
 			}
+		case "ed25519-firstuse":
+			// everything the goroutines need is prepared with crypto/ed25519, so that the goroutines' calls are the
+			// first use of this package (and of its lazily built base-point tables) in the process
+			seed32 := bytes.Repeat(seed[:4], 8)
+			stdPriv := stded.NewKeyFromSeed(seed32)
+			priv := pated.PrivateKey(append([]byte{}, stdPriv...))
+			pub := pated.PublicKey(append([]byte{}, stdPriv[32:]...))
+			msg := []byte("first use " + p.Seed)
+			sig0 := stded.Sign(stdPriv, msg)
+			for g := range p.Ops {
+				for _, opn := range p.Ops[g] {
+					switch opn {
+					case "Sign":
+						runs[g] = append(runs[g], func() post {
+							sig := pated.Sign(priv, msg)
+							return func() error {
+								if !bytes.Equal(sig, sig0) {
+									return fmt.Errorf("first concurrent Sign differs from crypto/ed25519's signature")
+								}
+								return nil
+							}
+						})
+					case "Verify":
+						runs[g] = append(runs[g], func() post {
+							ok := pated.Verify(pub, msg, sig0)
+							return func() error {
+								if !ok {
+									return fmt.Errorf("first concurrent Verify rejected a valid signature")
+								}
+								return nil
+							}
+						})
+					case "NewKeyFromSeed":
+						runs[g] = append(runs[g], func() post {
+							k := pated.NewKeyFromSeed(seed32)
+							return func() error {
+								if !bytes.Equal(k, stdPriv) {
+									return fmt.Errorf("first concurrent NewKeyFromSeed differs from crypto/ed25519")
+								}
+								return nil
+							}
+						})
+					case "BlindKeySign":
+						blind := bytes.Repeat([]byte{7}, 32)
+						runs[g] = append(runs[g], func() post {
+							sig := pated.BlindKeySign(priv, msg, blind)
+							bp, err := pated.BlindPublicKey(pub, blind)
+							return func() error {
+								if err != nil || !stded.Verify(stded.PublicKey(bp), msg, sig) {
+									return fmt.Errorf("first concurrent BlindKeySign produced a signature that does not verify under the blinded key")
+								}
+								return nil
+							}
+						})
+					}
+				}
+			}
+		case "ecdsa-firstuse":
+			c := []elliptic.Curve{elliptic.P256(), elliptic.P384(), elliptic.P521(), elliptic.P224()}[int(seed[1])%4]
+			stdKey, err := stdecdsa.GenerateKey(c, rt.NewDRBG(seed))
+			if err != nil {
+				prepErr = err
+				return
+			}
+			sk := &patecdsa.PrivateKey{PublicKey: patecdsa.PublicKey{Curve: c, X: stdKey.X, Y: stdKey.Y}, D: stdKey.D}
+			digest := bytes.Repeat([]byte{0x42}, 32)
+			r0, s0, err := stdecdsa.Sign(rt.NewDRBG(seed), stdKey, digest)
+			if err != nil {
+				prepErr = err
+				return
+			}
+			for g := range p.Ops {
+				for i, opn := range p.Ops[g] {
+					rnd := rt.NewDRBG(append([]byte{byte(g), byte(i)}, seed...))
+					switch opn {
+					case "Sign":
+						runs[g] = append(runs[g], func() post {
+							r, s, err := patecdsa.Sign(rnd, sk, digest)
+							return func() error {
+								if err != nil || !stdecdsa.Verify(&stdKey.PublicKey, digest, r, s) {
+									return fmt.Errorf("first concurrent Sign produced an invalid signature (%v)", err)
+								}
+								return nil
+							}
+						})
+					case "Verify":
+						runs[g] = append(runs[g], func() post {
+							ok := patecdsa.Verify(&sk.PublicKey, digest, r0, s0)
+							return func() error {
+								if !ok {
+									return fmt.Errorf("first concurrent Verify rejected a valid signature")
+								}
+								return nil
+							}
+						})
+					case "GenerateKey":
+						runs[g] = append(runs[g], func() post {
+							k, err := patecdsa.GenerateKey(c, rnd)
+							return func() error {
+								if err != nil || !c.IsOnCurve(k.X, k.Y) {
+									return fmt.Errorf("first concurrent GenerateKey failed (%v)", err)
+								}
+								return nil
+							}
+						})
+					}
+				}
+			}
 		default:
 			prepErr = fmt.Errorf("unknown kind %q", p.Kind)
 		}
@@ -637,4 +749,69 @@ func TestReplayPlan(t *testing.T) {
 			t.Fatalf("run %d: %v", i, err)
 		}
 	}
+}
+
+// ---------------------------------------------------------------- first use in a fresh process
+
+// TestFirstUseChild runs one plan as the very first thing a process does with the library (invoked by TestFirstUseInFreshProcess).
+func TestFirstUseChild(t *testing.T) {
+	path := os.Getenv("VERIF_FIRSTUSE_PLAN")
+	if path == "" {
+		t.Skip("not a child")
+	}
+	b, err := os.ReadFile(path)
+	if err != nil {
+		t.Fatal(err)
+	}
+	var p Plan
+	if err := json.Unmarshal(b, &p); err != nil {
+		t.Fatal(err)
+	}
+	if err := execute(p); err != nil {
+		t.Fatal(err)
+	}
+}
+
+func TestFirstUseInFreshProcess(t *testing.T) {
+	s := rt.S("first-use").SetRule("package-level state that is built lazily (Ed25519 base-point tables, ECDSA helper channel, circl group tables) is first touched concurrently: each case re-executes the test binary (race detector on) and runs a drawn plan as the first library use of that fresh process; the Ed25519/ECDSA kinds prepare keys and expected signatures with the standard library only. oracle as for plans: no race report (child exit status), results equal the sequential/standard-library values. non-trivial = every plan; distinct by plan")
+	kindsFU := []string{"ed25519-firstuse", "ed25519-firstuse", "ecdsa-firstuse", "type1-issuer", "type5-issuer", "type2-issuer", "type3-issuer", "batch-issuer"}
+	rt.Check(t, 10, 320, func(t *rapid.T) {
+		kind := gen.Pick(t, kindsFU, "kind")
+		nG := gen.UniformRange(t, 4, 16, "goroutines")
+		p := Plan{Kind: kind, Seed: fmt.Sprintf("%x", gen.Seed().Draw(t, "seed")), GoMaxProcs: gen.Pick(t, []int{4, 16}, "gomaxprocs")}
+		for g := 0; g < nG; g++ {
+			n := gen.UniformRange(t, 1, 3, "nops")
+			var ops []string
+			for i := 0; i < n; i++ {
+				ops = append(ops, gen.Pick(t, kinds[kind], "op"))
+			}
+			p.Ops = append(p.Ops, ops)
+			p.Skew = append(p.Skew, gen.Uniform(t, 3, "skew"))
+		}
+		pb, _ := json.Marshal(p)
+		dir := rt.OutDir
+		if dir == "" {
+			dir = os.TempDir()
+		}
+		planPath := filepath.Join(dir, fmt.Sprintf("firstuse-plan-%d.json", rt.Shard))
+		if err := os.WriteFile(planPath, pb, 0o644); err != nil {
+			t.Fatalf("harness: %v", err)
+		}
+		writePlan(p)
+		s.Eval()
+		s.Class(kind)
+		s.Nontrivial(pb)
+		cmd := exec.Command(os.Args[0], "-test.run", "^TestFirstUseChild$", "-test.count=1")
+		cmd.Env = append(os.Environ(), "VERIF_FIRSTUSE_PLAN="+planPath, "VERIF_OUT=") // the child writes no statistics
+		out, err := cmd.CombinedOutput()
+		if err != nil {
+			txt := string(out)
+			if len(txt) > 6000 {
+				txt = txt[:3000] + "\n...\n" + txt[len(txt)-3000:]
+			}
+			rt.Fail(t, "C17/first-use/"+kind, "a fresh process whose first library use is this concurrent plan failed (%v); plan %s\n%s", err, pb, txt)
+			return
+		}
+		s.Sample(func() any { return p })
+	})
 }
